@@ -44,6 +44,51 @@ const (
 	nViewAggs
 )
 
+// reader aggregation selector choices (Case.Selectors[reader][kind]).
+const (
+	raDefault    = iota // DefaultAggregationSelector(kind)
+	raNil               // nil (documented: the default is used)
+	raAggDefault        // AggregationDefault{} (documented: the default is used)
+	raDrop              // AggregationDrop{}
+	raExpo              // AggregationBase2ExponentialHistogram{MaxSize: 160, MaxScale: 20}
+	raHist2             // AggregationExplicitBucketHistogram{Boundaries: boundsTable[2]}
+	raHist3             // AggregationExplicitBucketHistogram{Boundaries: boundsTable[3]}
+	raSum               // AggregationSum{} (not for gauges)
+	raLast              // AggregationLastValue{} (gauges only)
+	nReaderAggs
+)
+
+// readerAggCompatible: the same documented compatibility table as for views.
+func readerAggCompatible(ra, kind int) bool {
+	switch ra {
+	case raSum:
+		return !gaugeKind(kind)
+	case raLast:
+		return gaugeKind(kind)
+	}
+	return true
+}
+
+func readerAggIsDefault(ra, kind int) bool {
+	switch ra {
+	case raDefault, raNil, raAggDefault:
+		return true
+	case raSum:
+		return !gaugeKind(kind) && kind != kHist
+	case raLast:
+		return gaugeKind(kind)
+	}
+	return false
+}
+
+// selectorOf returns reader r's choice for a kind (raDefault without selector).
+func (c Case) selectorOf(r, kind int) int {
+	if r < len(c.Selectors) && len(c.Selectors[r]) == nKinds {
+		return c.Selectors[r][kind]
+	}
+	return raDefault
+}
+
 var boundsTable = [][]float64{
 	{},
 	{0},
@@ -110,13 +155,17 @@ type Cycle struct {
 
 // Case is one generated input.
 type Case struct {
-	Env     string    `json:"env"`     // value of OTEL_GO_X_CARDINALITY_LIMIT, "" = unset
-	Readers []int     `json:"readers"` // temporality mode per ManualReader: 0 delta, 1 cumulative, 2 mixed
-	Insts   []Inst    `json:"insts"`
-	Views   []View    `json:"views"`
-	Pool    [][]vk.KV `json:"pool"` // attribute sets (distinct keys inside each)
-	Cycles  []Cycle   `json:"cycles"`
-	MultiCB bool      `json:"multi_cb"` // observe through one RegisterCallback instead of per-instrument callbacks
+	Env     string `json:"env"`     // value of OTEL_GO_X_CARDINALITY_LIMIT, "" = unset
+	Readers []int  `json:"readers"` // temporality mode per ManualReader: 0 delta, 1 cumulative, 2 mixed
+	// Selectors: per reader either empty (no WithAggregationSelector) or one
+	// ra* choice per instrument kind: what the reader's aggregation selector
+	// returns for that kind.
+	Selectors [][]int   `json:"selectors,omitempty"`
+	Insts     []Inst    `json:"insts"`
+	Views     []View    `json:"views"`
+	Pool      [][]vk.KV `json:"pool"` // attribute sets (distinct keys inside each)
+	Cycles    []Cycle   `json:"cycles"`
+	MultiCB   bool      `json:"multi_cb"` // observe through one RegisterCallback instead of per-instrument callbacks
 }
 
 func instName(i int) string { return fmt.Sprintf("inst%d", i) }
@@ -188,6 +237,29 @@ func normalize(c Case) Case {
 	}
 	if len(o.Readers) == 0 {
 		o.Readers = []int{0}
+	}
+	anySel := false
+	for r := range o.Readers {
+		if r < len(c.Selectors) && len(c.Selectors[r]) > 0 {
+			anySel = true
+		}
+	}
+	if anySel {
+		for r := range o.Readers {
+			var sel []int
+			if r < len(c.Selectors) && len(c.Selectors[r]) > 0 {
+				sel = make([]int, nKinds)
+				for k := range sel {
+					if k < len(c.Selectors[r]) {
+						sel[k] = ((c.Selectors[r][k] % nReaderAggs) + nReaderAggs) % nReaderAggs
+					}
+					if !readerAggCompatible(sel[k], k) {
+						sel[k] = raDefault // the SDK would reject the instrument
+					}
+				}
+			}
+			o.Selectors = append(o.Selectors, sel)
+		}
 	}
 	for _, in := range c.Insts {
 		in.Kind = ((in.Kind % nKinds) + nKinds) % nKinds
@@ -424,6 +496,40 @@ func genReaders(t *rapid.T) []int {
 	}
 }
 
+// genSelectors gives about half of the readers an aggregation selector; per
+// kind it answers with the default (three spellings) half of the time and
+// otherwise with drop / exponential / other buckets / sum / last value, as
+// far as the kind accepts it.
+func genSelectors(t *rapid.T, nreaders int) [][]int {
+	var out [][]int
+	any := false
+	for r := 0; r < nreaders; r++ {
+		var sel []int
+		if rapid.IntRange(0, 1).Draw(t, "has_selector") == 0 {
+			any = true
+			sel = make([]int, nKinds)
+			for k := range sel {
+				if rapid.Bool().Draw(t, "sel_default") {
+					sel[k] = rapid.SampledFrom([]int{raDefault, raNil, raAggDefault}).Draw(t, "sel")
+					continue
+				}
+				var ok []int
+				for _, ra := range []int{raDrop, raDrop, raExpo, raHist2, raHist3, raSum, raLast} {
+					if readerAggCompatible(ra, k) {
+						ok = append(ok, ra)
+					}
+				}
+				sel[k] = rapid.SampledFrom(ok).Draw(t, "sel")
+			}
+		}
+		out = append(out, sel)
+	}
+	if !any {
+		return nil
+	}
+	return out
+}
+
 func genInsts(t *rapid.T, max int) []Inst {
 	n := rapid.IntRange(1, max).Draw(t, "ninst")
 	out := make([]Inst, 0, n)
@@ -496,6 +602,12 @@ func genAgg(t *rapid.T, v *View, insts []Inst) {
 			}
 		}
 	}
+	for _, a := range ok {
+		if a == vaDefault {
+			ok = append(ok, vaDefault) // the explicit default matters against reader selectors
+			break
+		}
+	}
 	v.Agg = rapid.SampledFrom(ok).Draw(t, "agg")
 	if v.Agg == vaHist {
 		v.Bounds = rapid.IntRange(0, len(boundsTable)-1).Draw(t, "bounds")
@@ -541,12 +653,39 @@ func genMaskUnit(t *rapid.T, v *View) {
 	}
 }
 
-func genViews(t *rapid.T, insts []Inst, max int) []View {
+func genViews(t *rapid.T, c *Case, max int) []View {
+	insts := c.Insts
 	nv := rapid.IntRange(0, max).Draw(t, "nviews")
+	// instruments for whose kind some reader selects a non-default aggregation
+	var selected []int
+	for i, in := range insts {
+		for r := range c.Readers {
+			if !readerAggIsDefault(c.selectorOf(r, in.Kind), in.Kind) {
+				selected = append(selected, i)
+				break
+			}
+		}
+	}
 	var vs []View
 	for len(vs) < nv {
 		v := View{Keys: []string{}}
-		switch rapid.IntRange(0, 7).Draw(t, "viewshape") {
+		shape := rapid.IntRange(0, 7).Draw(t, "viewshape")
+		if len(selected) > 0 && rapid.IntRange(0, 3).Draw(t, "explicit_default") == 0 {
+			shape = 8
+		}
+		switch shape {
+		case 8: // the view asks for AggregationDefault{} where a reader selects something else
+			v.NameMode, v.Target = nmExact, rapid.SampledFrom(selected).Draw(t, "target")
+			v.Agg = vaDefault
+			switch rapid.IntRange(0, 3).Draw(t, "xd_shape") {
+			case 0:
+				v.Rename = rapid.SampledFrom(renames).Draw(t, "rename")
+			case 1:
+				v.Rename = rapid.SampledFrom(renames).Draw(t, "rename")
+				genFilter(t, &v)
+			case 2:
+				v.NameMode, v.ByKind, v.Kind = nmNone, true, insts[v.Target].Kind
+			}
 		case 0: // attribute filter only
 			genCriteria(t, &v, insts, true)
 			genFilter(t, &v)
@@ -728,6 +867,7 @@ func pruneUndetermined(c Case) Case {
 // measurement runs: the limiter boundary.
 func genLimit(t *rapid.T) Case {
 	c := Case{Env: genEnv(t), Readers: genReaders(t)}
+	c.Selectors = genSelectors(t, len(c.Readers))
 	c.Insts = genInsts(t, 2)
 	c.Views = []View{}
 	if rapid.IntRange(0, 2).Draw(t, "filtered") == 0 {
@@ -744,8 +884,9 @@ func genLimit(t *rapid.T) Case {
 // genViewsCase: up to four instruments and up to six views of every shape.
 func genViewsCase(t *rapid.T) Case {
 	c := Case{Env: genEnv(t), Readers: genReaders(t)}
+	c.Selectors = genSelectors(t, len(c.Readers))
 	c.Insts = genInsts(t, 4)
-	c.Views = genViews(t, c.Insts, 5)
+	c.Views = genViews(t, &c, 5)
 	if c.Views == nil {
 		c.Views = []View{}
 	}
